@@ -286,6 +286,8 @@ class NestedExtensionArray(ExtensionArray):
 
         argsort: np.ndarray | None = None
         if key.dtype.kind in "iu":
+            # Negative positions count from the end; values are matched to positions in ascending order
+            key = np.where(key < 0, key + len(self), key)
             _, argsort = np.unique(key, return_index=True)
             np_mask = np.zeros(len(self), dtype=np.bool_)
             np_mask[key] = True
